@@ -94,6 +94,7 @@ type nfault struct {
 	expr  string   // expression form ("" = statement only)
 	stmt  string   // statement form ("" = `expr;`)
 	pre   []string // statements that must precede it in the same body
+	hoist []string // a declaration it needs (top level, before use)
 	parse bool
 }
 
@@ -102,7 +103,14 @@ var nfaults = []nfault{
 	{kind: "throw-expr", expr: "throw new Exception('boom')"},
 	{kind: "undefined-fn", expr: "undefined_fn_xyz(1)"},
 	{kind: "mod-zero", expr: "($one % $zero)", pre: []string{"$one = 1; $zero = 0;"}},
-	{kind: "intdiv-zero", expr: "intdiv(1, 0)"},
+	{kind: "div-zero", expr: "($one / $zero)", pre: []string{"$one = 1; $zero = 0;"}},
+	{kind: "call-non-callable", expr: "$five()", pre: []string{"$five = 5;"}},
+	{kind: "dynamic-undefined-fn", expr: "$fname()", pre: []string{"$fname = 'nosuchfn_xyz';"}},
+	{kind: "string-method", expr: "$str->foo()", pre: []string{"$str = 'abc';"}},
+	{kind: "property-of-non-object", expr: "$five->x->y()", pre: []string{"$five = 5;"}},
+	{kind: "clone-non-object", expr: "clone $five", pre: []string{"$five = 5;"}},
+	{kind: "abstract-new", expr: "new AbsK()", hoist: []string{"abstract class AbsK {", "}"}},
+	{kind: "undefined-exception-class", stmt: "throw new NoSuchExcXyz('x');"},
 	{kind: "undefined-method", expr: "$ob->nope()", pre: []string{"$ob = new stdClass();"}},
 	{kind: "undefined-method-new", expr: "(new stdClass())->nope()"},
 	{kind: "undefined-class", expr: "new NoSuchClassXyz()"},
@@ -112,6 +120,13 @@ var nfaults = []nfault{
 	{kind: "parse:new-nothing", stmt: "$q = new ;", parse: true},
 	{kind: "parse:foreach-novar", stmt: "foreach ($arr as ) { }", parse: true},
 	{kind: "parse:unclosed-call", stmt: "$q = strlen('a' ;", parse: true},
+}
+
+// errors raised by the Go code of a built-in function: the known stream of nestrun.go
+var builtinFaults = []nfault{
+	{kind: "builtin:trigger_error", expr: "trigger_error('boom')"},
+	{kind: "builtin:call_user_func-non-callable", expr: "call_user_func($five)", pre: []string{"$five = 5;"}},
+	{kind: "builtin:typed-parameter", expr: "array_filter([1], $five)", pre: []string{"$five = 5;"}},
 }
 
 // expression embeddings: how the faulty expression E sits in its statement; the fault is on the
@@ -134,7 +149,7 @@ var eforms = []eform{
 		return blk{lines: []string{fmt.Sprintf("$r%d = max(", n), "  1,", "  " + e, ");"}, fault: 2}
 	}},
 	{"nested-calls", func(e string, n int) blk {
-		return blk{lines: []string{fmt.Sprintf("$r%d = strval(abs(", n), "  intval(", "    " + e + ")));"}, fault: 2}
+		return blk{lines: []string{fmt.Sprintf("$r%d = nid(nid(", n), "  nid(", "    " + e + ")));"}, fault: 2}
 	}},
 	{"binary-chain", func(e string, n int) blk {
 		return blk{lines: []string{fmt.Sprintf("$r%d = 1 +", n), "  2 +", "  " + e + ";"}, fault: 2}
@@ -173,7 +188,13 @@ var eforms = []eform{
 		return blk{lines: []string{fmt.Sprintf("$af%d = fn($x) =>", n), "  $x +", "  " + e + ";", fmt.Sprintf("$r%d = $af%d(1);", n, n)}, fault: 2}
 	}},
 	{"return", func(e string, n int) blk {
-		return blk{lines: []string{fmt.Sprintf("$rf%d = function () {", n), "  return", "    " + e + ";", "};", fmt.Sprintf("$rf%d();", n)}, fault: 2}
+		return blk{lines: []string{fmt.Sprintf("$rf%d = function () {", n), "  return 1 +", "    " + e + ";", "};", fmt.Sprintf("$rf%d();", n)}, fault: 2}
+	}},
+	{"interpolation-at", func(e string, n int) blk {
+		return blk{lines: []string{fmt.Sprintf("$r%d = \"first line", n), "second line", "third @{" + e + "} line\";"}, fault: 2}
+	}},
+	{"interpolation-heredoc", func(e string, n int) blk {
+		return blk{lines: []string{fmt.Sprintf("$r%d = <<<EOT", n), "first line", "second {" + e + "} line", "EOT;"}, fault: 2}
 	}},
 	{"interpolation", func(e string, n int) blk {
 		return blk{lines: []string{fmt.Sprintf("$r%d = \"first line", n), "second {" + e + "} line\";"}, fault: 1}
@@ -317,10 +338,14 @@ func init() {
 		return cat("try {", g.body(in), "} finally {", indent(cat(g.filler(1, 2))), "}")
 	})
 	w("try-catch-other", func(g *nestGen, in blk) blk {
-		return cat("try {", g.body(in), fmt.Sprintf("} catch (LengthException $x%d) {", g.id()), indent(cat(g.filler(1, 1))), "}")
+		n := g.id()
+		g.hoisted = append(g.hoisted, cat(fmt.Sprintf("class OtherErr%d extends Exception {", n), "}"))
+		return cat("try {", g.body(in), fmt.Sprintf("} catch (OtherErr%d $x%d) {", n, n), indent(cat(g.filler(1, 1))), "}")
 	})
 	w("try-catch-other-finally", func(g *nestGen, in blk) blk {
-		return cat("try {", g.body(in), fmt.Sprintf("} catch (LengthException | DomainException $x%d) {", g.id()), indent(cat(g.filler(1, 1))),
+		n := g.id()
+		g.hoisted = append(g.hoisted, cat(fmt.Sprintf("class OtherErr%d extends Exception {", n), "}"), cat(fmt.Sprintf("class ThirdErr%d extends Exception {", n), "}"))
+		return cat("try {", g.body(in), fmt.Sprintf("} catch (OtherErr%d | ThirdErr%d $x%d) {", n, n, n), indent(cat(g.filler(1, 1))),
 			"} finally {", indent(cat(g.filler(1, 1))), "}")
 	})
 	w("try-rethrow", func(g *nestGen, in blk) blk {
@@ -333,10 +358,10 @@ func init() {
 	})
 	w("catch-body", func(g *nestGen, in blk) blk {
 		n := g.id()
-		return cat("try {", indent(cat(g.filler(1, 1), fmt.Sprintf("throw new LengthException('first%d');", n))),
-			fmt.Sprintf("} catch (LengthException $x%d) {", n), g.body(in), "}")
+		g.hoisted = append(g.hoisted, cat(fmt.Sprintf("class OtherErr%d extends Exception {", n), "}"))
+		return cat("try {", indent(cat(g.filler(1, 1), fmt.Sprintf("throw new OtherErr%d('first');", n))),
+			fmt.Sprintf("} catch (OtherErr%d $x%d) {", n, n), g.body(in), "}")
 	})
-	w("block", func(g *nestGen, in blk) blk { return cat("{", g.body(in), "}") })
 
 	// ---- callables: the piece becomes the body, the nest goes on around the call
 	fr("function", func(g *nestGen, in blk) blk {
@@ -391,6 +416,15 @@ func init() {
 		return cat(fmt.Sprintf("$cv%d = 5;", n), fmt.Sprintf("$cl%d = function () use ($cv%d) {", n, n), g.body(in), fmt.Sprintf("  return $cv%d;", n), "};", fmt.Sprintf("$cl%d();", n))
 	})
 	fr("closure-immediate", func(g *nestGen, in blk) blk {
+		// a parenthesised closure whose body contains `=>` outside an array literal (arrow fn, match arm)
+		// is a parse error ("参数缺少变量名", a parser limitation, not a location matter): those bodies
+		// are called through a variable instead
+		for _, l := range in.lines {
+			if strings.Contains(l, "=>") {
+				n := g.id()
+				return cat(fmt.Sprintf("$ci%d = function () {", n), g.body(in), "};", fmt.Sprintf("$ci%d();", n))
+			}
+		}
 		return cat("(function () {", g.body(in), "})();")
 	})
 	fr("callback-array_map", func(g *nestGen, in blk) blk {
@@ -399,12 +433,7 @@ func init() {
 	})
 	fr("callback-call_user_func", func(g *nestGen, in blk) blk {
 		n := g.id()
-		g.hoisted = append(g.hoisted, cat(fmt.Sprintf("function ff%d() {", n), g.body(in), "  return 1;", "}"))
-		return cat(fmt.Sprintf("call_user_func('ff%d');", n))
-	})
-	fr("callback-usort", func(g *nestGen, in blk) blk {
-		n := g.id()
-		return cat(fmt.Sprintf("$us%d = [3, 1, 2];", n), fmt.Sprintf("usort($us%d, function ($a, $b) {", n), g.body(in), "  return $a <=> $b;", "});")
+		return cat(fmt.Sprintf("$cl%d = function () {", n), g.body(in), "  return 1;", "};", fmt.Sprintf("call_user_func($cl%d);", n))
 	})
 	fr("generator-body", func(g *nestGen, in blk) blk {
 		n := g.id()
@@ -425,11 +454,6 @@ func init() {
 		n := g.id()
 		g.hoisted = append(g.hoisted, iteratorClassWith(n, "current", in, g))
 		return cat(fmt.Sprintf("foreach (new It%d() as $e%d) {", n, n), indent(cat(g.filler(1, 2))), "}")
-	})
-	fr("tostring", func(g *nestGen, in blk) blk {
-		n := g.id()
-		g.hoisted = append(g.hoisted, cat(fmt.Sprintf("class K%d {", n), indent(cat("public function __toString(): string {", g.body(in), "  return 's';", "}")), "}"))
-		return cat(fmt.Sprintf("$o%d = new K%d();", n, n), fmt.Sprintf("$s%d = 'a' . $o%d;", n, n))
 	})
 	fr("magic-get", func(g *nestGen, in blk) blk {
 		n := g.id()
@@ -512,6 +536,18 @@ func buildNest(r *vh.Rand, ft *nfault, ef *eform, path []string) nestCase {
 		nc.Form = "stmt"
 	}
 	cur := cat(ft.pre, core)
+	if len(ft.hoist) > 0 {
+		g.hoisted = append(g.hoisted, cat(ft.hoist))
+	}
+	if nc.Form == "nested-calls" {
+		g.hoisted = append(g.hoisted, cat("function nid($p) {", "  return $p;", "}"))
+	}
+	return assemble(r, g, nc, cur, path)
+}
+
+// assemble wraps the piece into the enclosing constructs of path (outermost first), puts the hoisted
+// declarations and fillers around it and fills in the lines and the fault line of nc
+func assemble(r *vh.Rand, g *nestGen, nc nestCase, cur blk, path []string) nestCase {
 	for i := len(path) - 1; i >= 0; i-- {
 		w := wrapperByName(path[i])
 		if w == nil {
@@ -529,7 +565,7 @@ func buildNest(r *vh.Rand, ft *nfault, ef *eform, path []string) nestCase {
 	default:
 		top = cat()
 	}
-	top = cat(top, g.filler(0, 3))
+	top = cat(top, g.filler(1, 3)) // never on line 1: a default location is line 1
 	for _, h := range g.hoisted {
 		top = cat(top, h)
 		if r.Chance(30) {
@@ -543,6 +579,98 @@ func buildNest(r *vh.Rand, ft *nfault, ef *eform, path []string) nestCase {
 		nc.Alt = append(nc.Alt, a+1)
 	}
 	return nc
+}
+
+// ---------------------------------------------------------------- interpolation in multi-line literals (round 5)
+
+// What may stand in a string / heredoc before the interpolated fragment. The line of the fragment is
+// computed from positions inside the literal, so everything that makes rune index, byte offset and
+// column differ, or that a position scan could mistake for something else, goes here.
+type strSeg struct {
+	name, text string
+	quoted     bool // legal in a double-quoted string
+	heredoc    bool // legal in a heredoc
+}
+
+var strSegs = []strSeg{
+	{"ascii", "plain ascii text", true, true},
+	{"empty", "", true, true},
+	{"latin2", strings.Repeat("é", 14), true, true},
+	{"cjk3", "标题：这是一个很长的中文标题", true, true},
+	{"emoji4", strings.Repeat("😀", 9), true, true},
+	{"mixed", "aé中😀 aé中😀 aé中😀", true, true},
+	{"escaped-quote", `say \"hi\" twice \"ok\"`, true, false},
+	{"escape-seq", `tab\there\nnot a line end\\`, true, true},
+	{"simple-var", "value $pv and $pv", true, true},
+	{"braced-var", "value {$pv} and {$pv}", true, true},
+	{"braces-text", "json { \"a\": 1 } text", false, true},
+}
+
+func strSegByName(n string) *strSeg {
+	for i := range strSegs {
+		if strSegs[i].name == n {
+			return &strSegs[i]
+		}
+	}
+	return nil
+}
+
+var interpQuotings = []string{"quoted-brace", "quoted-at", "heredoc-brace", "heredoc-blank-first"}
+
+// buildInterp: a literal of the given quoting whose lines before the fragment are prev, with same in
+// front of the fragment on its own line
+func buildInterp(r *vh.Rand, quoting string, prev []*strSeg, same *strSeg, path []string) (nestCase, bool) {
+	heredoc := strings.HasPrefix(quoting, "heredoc")
+	for _, sg := range append(append([]*strSeg{}, prev...), same) {
+		if heredoc && !sg.heredoc || !heredoc && !sg.quoted {
+			return nestCase{}, false
+		}
+	}
+	g := &nestGen{r: r}
+	n := g.id()
+	var frag, kind string
+	pre := []string{"$pv = 'p';"}
+	switch quoting {
+	case "quoted-at":
+		frag, kind = "@{undefined_fn_xyz(1)}", "undefined-fn"
+	default:
+		frag, kind = "{$ob->nope()}", "undefined-method"
+		pre = append(pre, "$ob = new stdClass();")
+	}
+	var names []string
+	var lines []string
+	open := fmt.Sprintf("$r%d = \"", n)
+	if heredoc {
+		lines = append(lines, fmt.Sprintf("$r%d = <<<EOT", n))
+		open = ""
+		if quoting == "heredoc-blank-first" {
+			lines = append(lines, "") // a blank first body line (ExtractHeredocBody skips it)
+		}
+	}
+	for i, sg := range prev {
+		names = append(names, sg.name)
+		if i == 0 {
+			lines = append(lines, open+sg.text)
+		} else {
+			lines = append(lines, sg.text)
+		}
+	}
+	if len(prev) == 0 {
+		lines = append(lines, open+"first")
+	}
+	fl := same.text + " " + frag + " tail"
+	if heredoc {
+		lines = append(lines, fl, "EOT;")
+	} else {
+		lines = append(lines, fl+"\";")
+	}
+	core := blk{lines: lines, fault: len(lines) - 1}
+	if heredoc {
+		core.fault = len(lines) - 2
+	}
+	nc := nestCase{Mode: "nest", Ext: vh.Pick(r, []string{"zy", "php"}), CRLF: r.Chance(35), Kind: kind,
+		Form: "interp:" + quoting + ":" + strings.Join(names, "+") + "/" + same.name, Path: path}
+	return assemble(r, g, nc, cat(pre, core), path), true
 }
 
 func (nc nestCase) source() string {
